@@ -5,6 +5,7 @@ import (
 	"fmt"
 	"sort"
 	"strconv"
+	"strings"
 
 	"github.com/privacybydesign/gabi"
 	"github.com/privacybydesign/gabi/gabikeys"
@@ -241,7 +242,9 @@ func suiteC08(s *Suite, rng *Rng, tier string) {
 		}
 		for m := -1; m < count; m++ {
 			mt, kind := tree, "honest"
-			if m >= 0 {
+			if m >= 0 && m%8 == 7 {
+				mt, kind = mutateSiblingArrays(tree, rng)
+			} else if m >= 0 {
 				mt, kind = mutateJSON(tree, rng, len(sess.Pks[0].R))
 				if rng.Intn(5) == 0 {
 					var k2 string
@@ -292,7 +295,71 @@ func suiteC08(s *Suite, rng *Rng, tier string) {
 	s.Notes["rule"] = "JSON documents derived from 7 honest proof lists (disclosure/issuance, with range and " +
 		"non-revocation parts, toy 256-bit and 1024-bit keys) by structural mutation of a random node: delete, null, " +
 		"duplicate, truncate, swap, re-key map entries to -1/0/len(R)/1000/2^31, replace by empty object/array/" +
-		"'AQ=='/'' ; 20% double mutations; non-trivial = decodable mutated document, distinct by JSON text"
+		"'AQ=='/'' ; 20% double mutations; every 8th mutation applies one length-changing edit (truncate, empty, extend, delete, null) to two or more equally long sibling arrays at once; non-trivial = decodable mutated document, distinct by JSON text"
+}
+
+// mutateSiblingArrays applies one and the same length-changing edit to two or more arrays of equal length that sit in the
+// same JSON object (the commitments and the two response vectors of a range proof, ...): a consistency check that only
+// compares such arrays with each other, not with what the structure demands, lets these through.
+func mutateSiblingArrays(root interface{}, rng *Rng) (interface{}, string) {
+	root = deepCopy(root)
+	type cand struct {
+		m    map[string]interface{}
+		keys []string
+	}
+	var cands []cand
+	var walk func(x interface{})
+	walk = func(x interface{}) {
+		switch v := x.(type) {
+		case map[string]interface{}:
+			byLen := map[int][]string{}
+			for k, c := range v {
+				if a, ok := c.([]interface{}); ok && len(a) > 0 {
+					byLen[len(a)] = append(byLen[len(a)], k)
+				}
+				walk(c)
+			}
+			for _, ks := range byLen {
+				if len(ks) >= 2 {
+					sort.Strings(ks)
+					cands = append(cands, cand{v, ks})
+				}
+			}
+		case []interface{}:
+			for _, c := range v {
+				walk(c)
+			}
+		}
+	}
+	walk(root)
+	if len(cands) == 0 {
+		return root, "none"
+	}
+	sort.Slice(cands, func(i, j int) bool { return strings.Join(cands[i].keys, ",") < strings.Join(cands[j].keys, ",") })
+	c := cands[rng.Intn(len(cands))]
+	keys := append([]string{}, c.keys...)
+	if len(keys) > 2 && rng.Bool() {
+		drop := rng.Intn(len(keys))
+		keys = append(keys[:drop], keys[drop+1:]...)
+	}
+	op := rng.Intn(5)
+	name := []string{"truncate-last", "empty", "extend", "delete-key", "null"}[op]
+	for _, k := range keys {
+		a := c.m[k].([]interface{})
+		switch op {
+		case 0:
+			c.m[k] = a[:len(a)-1]
+		case 1:
+			c.m[k] = []interface{}{}
+		case 2:
+			c.m[k] = append(append([]interface{}{}, a...), a[len(a)-1])
+		case 3:
+			delete(c.m, k)
+		default:
+			c.m[k] = nil
+		}
+	}
+	return root, "siblings(" + strings.Join(keys, ",") + "):" + name
 }
 
 // malformed reports why a decoded list is structurally malformed ("" if it is not).
